@@ -120,7 +120,7 @@ Section Policy.
   Lemma policy_body_collapse : forall v rules p,
     collapse (run_flat e (policy_body c v rules) p) = collapse (run_flat e (render_rules c v rules) p).
   Proof.
-    intros v rules p. rewrite <- run_flat_strip_trailing_returns. unfold policy_body.
+    intros v rules p. rewrite <- (run_flat_strip_trailing_returns e (render_rules c v rules) p). unfold policy_body.
     destruct (strip_trailing_returns (render_rules c v rules)); reflexivity.
   Qed.
 
